@@ -11,6 +11,8 @@ or a margin's reference size in layout.py breaks these proofs at the next run.
 Only property theorems live here; lemmas are in `Lemmas/LayoutSpec.lean`, `Lemmas/LayoutScale.lean`.
 -/
 import PdfVerif.Lemmas.LayoutOrder
+import PdfVerif.Lemmas.LayoutColumns
+import PdfVerif.Props.C08
 
 namespace PdfVerif.Props.C09
 open PdfVerif PdfVerif.Gen.Layout PdfVerif.Layout
@@ -107,6 +109,64 @@ theorem C09_column_order_partial (bf : Rat) (a b : BB) :
     (-1 < bf → a.x0 = b.x0 → b.y0 + b.y1 < a.y0 + a.y1 → key_lrtb bf a < key_lrtb bf b) ∧
     (bf < 1 → a.y0 + a.y1 = b.y0 + b.y1 → a.x0 < b.x0 → key_lrtb bf a < key_lrtb bf b) :=
   ⟨fun h1 h2 h3 => key_lrtb_column bf h1 a b h2 h3, fun h1 h2 h3 => key_lrtb_columns bf h1 a b h2 h3⟩
+
+/-- **Reading order of a page with two text boxes, numeric `boxes_flow` - full statement.**  Whatever the page
+(any items, any parameters, any heap tie-break): when the analysis ends with exactly two text boxes `a`, `b` (in
+output order) then `a`'s sort key is not above `b`'s - the hierarchy is ONE group of these two boxes and its
+members are sorted by `key_lrtb` (by `key_tbrl` when one of them is vertical).  Unlike `C09_column_order_partial`
+this is about the OUTPUT of `analyze`, not about the key alone. -/
+theorem C09_order_two_boxes {le : Cmp} (p : LAParams) (bf : Rat) (hbf : p.boxes_flow = some bf) (pageBB : BB)
+    (hp : WfPage pageBB) (items : List Item) (a b : Box)
+    (hout : boxesOf (analyze le p pageBB items) = [a, b]) :
+    groupKey (a.vertical || b.vertical) bf a.bb ≤ groupKey (a.vertical || b.vertical) bf b.bb := by
+  have hne : (items.filterMap Item.glyph?).isEmpty = false := by
+    cases h : (items.filterMap Item.glyph?).isEmpty with
+    | false => rfl
+    | true =>
+      exfalso
+      have hc : (analyze le p pageBB items).children = items.map Item.toChild := by simp [analyze, h]
+      have : boxesOf (analyze le p pageBB items) = [] := by
+        simp only [boxesOf, hc, List.filterMap_map]
+        apply List.filterMap_eq_nil_iff.mpr
+        intro it _
+        cases it <;> rfl
+      rw [this] at hout
+      exact absurd hout (by simp)
+  have hh := C08.C08_hierarchy (le := le) p pageBB hp items hne
+  have hroot := C08.C08_single_root (le := le) p pageBB items
+  cases hg : (analyze le p pageBB items).groups with
+  | none =>
+    have := hh.1.mp hg
+    rw [hbf] at this
+    exact absurd this (by simp)
+  | some gs =>
+    obtain ⟨hleaves, hok⟩ := hh.2 gs hg
+    have hlen := hroot gs hg
+    rw [hout] at hleaves
+    match gs, hleaves, hlen, hok with
+    | [], hleaves, _, _ => simp at hleaves
+    | [g], hleaves, _, hok =>
+      simp only [List.flatMap_cons, List.flatMap_nil, List.append_nil] at hleaves
+      exact root_of_two hleaves (hok bf hbf g (by simp))
+    | _ :: _ :: _, _, hlen, _ => simp at hlen
+
+/-- **A column of two boxes comes out top to bottom, two columns left to right.**  On a page that ends with two
+horizontal text boxes, `boxes_flow = bf`: the lower of two boxes with the same left edge is never first
+(`bf > -1`), and of two boxes with the same vertical extent the right one is never first (`bf < 1`). -/
+theorem C09_column_order_two {le : Cmp} (p : LAParams) (bf : Rat) (hbf : p.boxes_flow = some bf) (pageBB : BB)
+    (hp : WfPage pageBB) (items : List Item) (a b : Box) (hout : boxesOf (analyze le p pageBB items) = [a, b])
+    (ha : a.vertical = false) (hb : b.vertical = false) :
+    (-1 < bf → a.bb.x0 = b.bb.x0 → ¬ (a.bb.y0 + a.bb.y1 < b.bb.y0 + b.bb.y1)) ∧
+    (bf < 1 → a.bb.y0 + a.bb.y1 = b.bb.y0 + b.bb.y1 → ¬ (b.bb.x0 < a.bb.x0)) := by
+  have h := C09_order_two_boxes (le := le) p bf hbf pageBB hp items a b hout
+  simp only [ha, hb, Bool.or_self, groupKey, Bool.false_eq_true, if_false] at h
+  constructor
+  · intro h1 h2 h3
+    have := key_lrtb_column bf h1 b.bb a.bb h2.symm h3
+    exact absurd h (not_le.mpr this)
+  · intro h1 h2 h3
+    have := key_lrtb_columns bf h1 b.bb a.bb h2.symm h3
+    exact absurd h (not_le.mpr this)
 
 /-- **Reading order without the hierarchy (`boxes_flow = None`), full statement.**  For every page the
 text boxes come out sorted by the documented positional key: vertical boxes first (by descending right
